@@ -35,7 +35,7 @@ func init() {
 				return 1_500_000
 			}, Run: c06Arc,
 				Min: map[string]int64{"arcs": 100000, "relative": 20000, "absolute": 20000, "scaled_up_radii": 10000, "large_arc": 20000, "sweep_positive": 20000, "sweep_negative": 20000,
-					"zero_radius": 5000, "exact_semicircles": 2000, "reset_before_setrasterizer": 50000, "rectangle_changed_after_reset": 50000, "lattice_mode": 20000, "lattice_endpoint_equals_pen_pixels": 5000, "cubics_1": 1000, "cubics_2": 1000, "cubics_3": 1000, "cubics_4": 1000, "negative_radius": 5000}},
+					"zero_radius": 5000, "exact_semicircles": 2000, "reset_before_setrasterizer": 50000, "rectangle_changed_after_reset": 50000, "renderer_used_for_an_earlier_graphic": 50000, "lattice_mode": 20000, "lattice_endpoint_equals_pen_pixels": 5000, "cubics_1": 1000, "cubics_2": 1000, "cubics_3": 1000, "cubics_4": 1000, "negative_radius": 5000}},
 		},
 	})
 }
@@ -144,7 +144,13 @@ func c06Arc(c *run.Ctx, idx uint64) {
 
 	rz := &rec.Raster{}
 	var z render.Renderer
-	switch idx % 4 {
+	switch idx % 5 {
+	case 4:
+		z.SetRasterizer(rz, rect)
+		earlierGraphic(&z, vb)
+		rz.ResetLog()
+		z.Reset(vb, ivg.DefaultPalette)
+		c.Count("renderer_used_for_an_earlier_graphic", 1)
 	case 0:
 		z.Reset(vb, ivg.DefaultPalette)
 		z.SetRasterizer(rz, rect)
